@@ -9,6 +9,12 @@ TB = "CPython 3.12, crosshair-tool 0.0.110, z3 5.1; the import shim of lib/repo_
 
 # id -> (category, technique, text, note, design_ref, engine)
 CHECKS = {
+    "C24": ("model_checking",
+            "CrossHair/z3 symbolic execution of the real unitary checker on checked blocks with symbolic context/callee/nested-call flag sets and argument shapes; oracle = the statement's rejection rule",
+            "BBUnitaryChecker/check_cfg_unitary/check_invalid_under_dagger run on blocks built from the real node classes: all 8x8x8 flag sets x 6 argument shapes x 9 positions of the call (statement, assignment/annotated/augmented value, "
+            "return, branch predicate, operand, argument of a classical call, tuple element) x local/global/tensor callee; barrier/state_result exemptions; subscripted places and loop/assignment syntax under dagger. "
+            "The two defect shapes found are confirmed through @guppy(unitary=True).check().",
+            TB + "; hand-built checked blocks use the node layout the real checker emits; stand-in for ENGINE.get_parsed", "DESIGN.md §5 C24", "E1"),
     "C09": ("model_checking",
             "CrossHair/z3 symbolic execution of the worklist loop body sliced from the real analysis.py from an arbitrary state (inductive step, any popped block), plus whole-graph runs under solver-chosen schedules",
             "One iteration of ForwardAnalysis.run/BackwardAnalysis.run (sliced from the current source, queue.pop() made a parameter) runs symbolically from an arbitrary lattice state around the popped block "
